@@ -478,6 +478,10 @@ static void begin(int state, int presence, int start_poison) {
 	cm_std(&M); for (int i = 1; i <= 3; i++) M.b[i].present = (presence >> (i - 1)) & 1;
 	/* a third train with no peripherals and no calibration: empty collections inside an entity (snapshot copy loops) */
 	{ cm_train_t *t = &M.t[M.nt++]; memset(t, 0, sizeof *t); snprintf(t->id, sizeof t->id, "train3"); t->addrl = 0x77; t->addrh = 0x00; t->steps = 14; }
+	/* sibling collections of different size (a free or copy loop that borrows the count of its sibling): with all boards present
+	 * two DCC signals and one DCC point, in the other presence variants two DCC points and one DCC signal */
+	if (presence == 7) { M.b[0].sd[1] = M.b[0].sd[0]; snprintf(M.b[0].sd[1].id, 24, "signald2"); M.b[0].sd[1].addrl = 0x24; M.b[0].sd[1].initial[0] = 0; M.b[0].nsd = 2; }
+	else { M.b[0].pd[1] = M.b[0].pd[0]; snprintf(M.b[0].pd[1].id, 24, "pointd2"); M.b[0].pd[1].addrl = 0x25; M.b[0].pd[1].initial[0] = 0; M.b[0].npd = 2; }
 	quiet = 0; cm_install(&M); SB.on_msg = bus_hook;
 	CX.op = "bidib_start_pointer"; if (start_poison) scribble(start_poison);
 	if (hx_start_normal(0)) { if (CX.sibling) _exit(4); res_infra("normal start failed"); }
@@ -710,9 +714,11 @@ static void sched_child(const void *job, size_t n) {
 #endif
 	sg = g; sa = &args[ai];
 	queue_change_batch();
+	vs_unlock_points = 1;       /* a getter that still reads shared data after dropping the lock: the stretch up to its next acquisition must be interruptible */
 	vs_window(1);
 	int t = vs_spawn(sched_getter, NULL); vs_join_tid(t); hx_quiesce();
 	vs_window(0);
+	vs_unlock_points = 0;
 	drain_san("sanitizer-in-getter-under-concurrent-updates", "call");
 	emit_outcome(&SF);
 	hx_emit_ledger_violations("C17");
